@@ -182,6 +182,7 @@ def c14(rep, tier):
     r_cmp.run_eqonly(p, rep)
     r_cmp.run_orderins(p, rep, [r_cmp.CORE_FNS["value_eq"], r_cmp.CORE_FNS["value_cmp"]])
     r_table.run_filter_ops(p, rep, only=["array::"])
+    r_table.run_state_use(p, rep, only=["WhereFilter"])
     rep.analysed["config:all"] = {"bodies": len(p.fns)}
 
 
